@@ -105,7 +105,57 @@ def main():
         finally:
             shutil.rmtree(d, ignore_errors=True)
         res["states"] = r
+    if "collect" in req:
+        res["collect"] = collect_cases(req["collect"])
     json.dump(res, sys.stdout)
+
+
+def collect_cases(cases):
+    """Each case: list of declarations (subdir, kind, decl); decl may contain {R} for the project
+    root. One project per case; returns for each declaration the collected path ({R}-relative
+    spelling) and signature."""
+    import subprocess
+    out = []
+    base = Path(tempfile.mkdtemp(prefix="verif_c12c_"))
+    try:
+        for ci, decls in enumerate(cases):
+            root = base / f"p{ci}"
+            root.mkdir()
+            (root / "pyproject.toml").write_text("[tool.pytask.ini_options]\n")
+            bydir = {}
+            for i, (sub, kind, decl) in enumerate(decls):
+                bydir.setdefault(sub, []).append((i, kind, decl.replace("{R}", str(root))))
+            for sub, items in bydir.items():
+                d = root / sub
+                d.mkdir(parents=True, exist_ok=True)
+                lines = ["from pathlib import Path", "from typing import Annotated", "from pytask import PathNode, PickleNode, Product", ""]
+                for i, kind, decl in items:
+                    if kind == "path":
+                        arg = f"p: Annotated[Path, Product] = Path({decl!r})"
+                    elif kind == "node":
+                        arg = f"p: Annotated[Path, PathNode(path=Path({decl!r})), Product]"
+                    else:
+                        arg = f"p: Annotated[Path, PickleNode(path=Path({decl!r})), Product]"
+                    lines += [f"def task_d{i}({arg}):", "    pass", ""]
+                (d / "task_decl.py").write_text("\n".join(lines))
+            code = ("import json, pytask\nfrom pathlib import Path\n"
+                    f"s = pytask.build(paths=[Path({str(root)!r})], dry_run=True)\n"
+                    "r = {}\n"
+                    "for t in s.tasks:\n"
+                    "    n = t.produces['p']\n"
+                    "    r[t.name.split('::')[-1]] = [str(n.path), n.signature]\n"
+                    "print('RESULT' + json.dumps({'exit': int(s.exit_code), 'nodes': r}))\n")
+            p = subprocess.run([sys.executable, "-c", code], capture_output=True, text=True, cwd=root)
+            line = [l for l in p.stdout.splitlines() if l.startswith("RESULT")]
+            if not line:
+                out.append({"error": (p.stdout + p.stderr)[-800:]})
+                continue
+            r = json.loads(line[-1][6:])
+            r["nodes"] = {k: [v[0].replace(str(root), "/R"), v[1]] for k, v in r["nodes"].items()}
+            out.append(r)
+    finally:
+        shutil.rmtree(base, ignore_errors=True)
+    return out
 
 
 def _pyhash(v):
